@@ -74,7 +74,8 @@ def write_then_forget(ctx: Ctx, chk, loss_only: bool = False) -> None:
             if fl.key_name is None or norm(key) != fl.key_name:
                 # key must be the loop's key (or derived from the loop's value)
                 names = {x.id for x in ast.walk(key) if isinstance(x, ast.Name)}
-                if not (names and names <= {fl.key_name, fl.val_name} - {None}):
+                roots = {(n_ or "").split(".")[0] for n_ in (fl.key_name, fl.val_name)} - {""}
+                if not (names and names <= roots):
                     raise AnalysisError(f"WRITE-THEN-FORGET: removal key `{norm(key)}` is not the loop's entry in {f.fq}")
             doms = [s for s in fl.sends if g.dominates(s, r)]
             if not doms:
@@ -90,7 +91,7 @@ def write_then_forget(ctx: Ctx, chk, loss_only: bool = False) -> None:
             # the send sends the loop's value
             call = sb.is_send(s.ast)
             a0 = call.args[0] if call.args else None
-            if not (isinstance(a0, ast.Name) and a0.id == fl.val_name):
+            if not (a0 is not None and norm(a0) == (fl.val_name or "")):
                 chk.refute(rule, k, f"the send before the removal sends `{norm(a0) if a0 is not None else ''}`, not the entry that is then removed", ctx.loc(f, s.ast))
                 continue
             chk.ok(rule, k, f"dominated by the normal completion of `{norm(s.ast)[:60]}` of the same iteration", ctx.loc(f, r.ast))
